@@ -349,6 +349,7 @@ func propC12(w *World, r *Report, tier string) {
 	checkGutiOffsets(w, r)
 	checkConvertErrors(w, r)
 	checkGutiRejects(w, r)
+	checkSuciSchemeOutput(w, r)
 	r.Expect("lay.plmn", 4)
 }
 
@@ -499,6 +500,62 @@ func checkGutiOffsets(w *World, r *Report) {
 			r.OK("lay.guti-offsets")
 		}
 	}
+}
+
+// checkSuciSchemeOutput: for a SUCI in IMSI format with a non-null protection scheme the text ends
+// with the scheme output as lowercase hexadecimal, two characters per octet, nothing trimmed
+// (TS 23.003 2.2B).  The header octets are concrete, the scheme output octets symbolic.
+func checkSuciSchemeOutput(w *World, r *Report) {
+	f := w.LookupFunc("nasType", "MobileIdentity5GS.GetSUCI")
+	if f == nil {
+		r.Fail("anchor", "nasType.MobileIdentity5GS.GetSUCI", "missing", token.NoPos, "getter not found", nil)
+		return
+	}
+	fname := FuncName(f)
+	r.Fn(fname)
+	for _, scheme := range []uint64{1, 2} {
+		for _, k := range []int{1, 4, 9} {
+			r.Site("text.suci-output")
+			it := NewInterp(w)
+			it.Fuel = 100000
+			st := it.NewState()
+			bo := it.NewObj("buf", true)
+			st.mem[bo] = map[string]Value{}
+			hdr := []uint64{0x01, 0x02, 0xf8, 0x39, 0xf0, 0xff, scheme, 5}
+			for i, v := range hdr {
+				st.mem[bo][fmt.Sprintf("[%d]", i)] = it.constBV(v, 8)
+			}
+			var out []BV
+			for i := 0; i < k; i++ {
+				out = append(out, it.SrcBV(fmt.Sprintf("buf[%d]", 8+i), 8))
+			}
+			ro, recv := it.SymbolicObj("id")
+			st.mem[ro] = map[string]Value{".Buffer": SliceV{Obj: bo, Len: 8 + k}, ".Len": it.constBV(uint64(8+k), 16)}
+			res := it.Call(w.SSAFunc(f), []Value{recv}, st, 0)
+			what := fmt.Sprintf("scheme %d, %d output octets", scheme, k)
+			sv, ok := res.(StrV)
+			if !ok || !sv.Sym || len(it.Unsup) > 0 {
+				r.Fail("text.suci-output", fname, what+" undecided", f.Pos(), fmt.Sprintf("the SUCI text is outside the modelled fragment: %v", it.Unsup), nil)
+				continue
+			}
+			last := -1
+			for i, ch := range sv.Chars {
+				if v, isC := ch.IsConst(); isC && ch.Hex == nil && v == '-' {
+					last = i
+				}
+			}
+			good, why := last >= 0, "no '-' separated scheme output"
+			if good {
+				good, why = hexOf(it, StrV{Sym: true, Chars: sv.Chars[last+1:]}, out)
+			}
+			if !good {
+				r.Fail("text.suci-output", fname, what, f.Pos(), "the scheme output part of the SUCI text is not the hexadecimal text of octets 9.. (two characters per octet): "+why, nil)
+				continue
+			}
+			r.OK("text.suci-output")
+		}
+	}
+	r.Expect("text.suci-output", 6)
 }
 
 // checkGutiRejects: a GUTI text whose PLMN part holds a character that is not a decimal digit is
